@@ -172,6 +172,8 @@ impl Default for Parser {
 impl BufferParser for Parser {
     #[allow(clippy::single_match)]
     fn print_char(&mut self, buf: &mut Buffer, current_layer: usize, caret: &mut Caret, ch: char) -> EngineResult<CallbackAction> {
+        #[cfg(icy_engine_verif)]
+        crate::verif::tick(1);
         match &self.state {
             EngineState::ParseAnsiMusic(_) => {
                 return self.parse_ansi_music(ch);
@@ -1437,7 +1439,15 @@ impl BufferParser for Parser {
 }
 
 impl Parser {
+    /// read-only view of the stored macros (verification hook)
+    #[cfg(icy_engine_verif)]
+    pub fn verif_macros(&self) -> &HashMap<usize, String> {
+        &self.macros
+    }
+
     fn invoke_macro_by_id(&mut self, buf: &mut Buffer, current_layer: usize, caret: &mut Caret, id: i32) {
+        #[cfg(icy_engine_verif)]
+        let _verif_depth = crate::verif::DepthGuard::enter("macro");
         let m = if let Some(m) = self.macros.get(&(id as usize)) {
             m.clone()
         } else {
